@@ -195,7 +195,16 @@ def rd_inv(r):
 
 
 def rd_tx(r):
-    tx, used = txser.parse(r.b[r.pos:], allow_trailing=True)
+    # a sequential parse that succeeds inside a window read nothing beyond it: the window only spares copying the whole
+    # rest of a long array for every element
+    rest = len(r.b) - r.pos
+    for window in (4096, rest):
+        try:
+            tx, used = txser.parse(r.b[r.pos:r.pos + window], allow_trailing=True)
+            break
+        except Exception:
+            if window >= rest:
+                raise
     r.pos += used
     return tx
 
